@@ -430,7 +430,7 @@ def signature(op, what, detail):
 # ------------------------------------------------------------------- main
 def main(ctx):
     quick = ctx.tier == 'quick'
-    n_mesh = 45 if quick else 500
+    n_mesh = 110 if quick else 600
     for p in lib.REPLAY.glob(PID + '_*.json'):
         p.unlink()
     ctx.rule = ('generated meshes (hex / prism / tet lattices, mixed, tet2, hex2, element soups, shells; '
@@ -471,6 +471,10 @@ def main(ctx):
                                         scan_dirs=[lib.COQ / 'C09', lib.COQ / 'C08'])
         if not proof_ok:
             ctx.notes['build_log_tail'] = log[-1500:]
+        elif ctx.tier == 'thorough' and hasattr(ctx, 'coqchk'):
+            if not ctx.coqchk('C09/Props.v'):
+                proof_ok = False
+                ctx.notes['coqchk_failed'] = True
     else:
         for n in lib.theorem_names(lib.COQ / 'C09' / 'Props.v'):
             ctx.obligations.append({'name': n, 'discharged': False, 'assumptions': [],
